@@ -148,11 +148,6 @@ func (h *Handler) handleRequest(host *packet.Host, p packet.DHCP4, options packe
 			return nil // request not for us - silently discard packet
 		}
 
-		if host := h.session.FindIP(reqIP); host != nil && !bytes.Equal(host.MACEntry.MAC, p.CHAddr()) {
-			// the address is in use by another device (it appeared after our offer): do not acknowledge it
-			Logger.Msg("request NACK - address in use by another mac").ByteArray("xid", p.XId()).IP("ip", reqIP).MAC("mac", host.MACEntry.MAC).Write()
-			return nakPacket(p, subnet.DHCPServer.AsSlice(), clientID)
-		}
 		if lease.State == StateFree || // no offer outstanding and no lease: nothing to confirm
 			!bytes.Equal(lease.Addr.MAC, p.CHAddr()) || // invalid hardware
 			(lease.State == StateDiscover && (!bytes.Equal(lease.XID, p.XId()) || lease.IPOffer != reqIP)) || // invalid discover request
@@ -233,6 +228,16 @@ func (h *Handler) handleRequest(host *packet.Host, p packet.DHCP4, options packe
 	}
 
 	// successful request
+	// never acknowledge an address that the session currently tracks for another device
+	ackIP := lease.Addr.IP
+	if lease.State == StateDiscover {
+		ackIP = lease.IPOffer
+	}
+	if host := h.session.FindIP(ackIP); host != nil && !bytes.Equal(host.MACEntry.MAC, p.CHAddr()) {
+		Logger.Msg("request NACK - address in use by another mac").ByteArray("xid", p.XId()).IP("ip", ackIP).MAC("mac", host.MACEntry.MAC).Write()
+		return nakPacket(p, subnet.DHCPServer.AsSlice(), clientID)
+	}
+
 	lease.Name = nameEntry.Name
 	if lease.State == StateDiscover {
 		lease.Addr.IP = lease.IPOffer
